@@ -1243,7 +1243,8 @@ func (r *rpcPlanningContext) buildMessageForField(config buildFieldMessageConfig
 			continue
 		}
 
-		if message.Fields.Exists(r.operation.FieldNameString(fieldRef), "") {
+		// Only skip exact duplicates: the same field under another alias is a separate response key.
+		if message.Fields.Exists(r.operation.FieldNameString(fieldRef), r.operation.FieldAliasString(fieldRef)) {
 			continue
 		}
 
